@@ -25,7 +25,18 @@ type Req struct {
 	Branches []string `json:"branches,omitempty"` // LD LI MD MI
 	Exts     []string `json:"exts,omitempty"`
 	Strict   bool     `json:"strict,omitempty"`
-	Jail     bool     `json:"jail,omitempty"` // mkdir/verify: run inside a fresh temp dir and report it
+	Jail     bool     `json:"jail,omitempty"`   // mkdir/verify: run inside a fresh temp dir and report it
+	Target   string   `json:"target,omitempty"` // explicit target directory (the parent owns the jail)
+	Route    string   `json:"route,omitempty"`  // "" / "md": From-Markdown; "root": From-Root (tree built from Items)
+	Items    []Item   `json:"items,omitempty"`
+	Alias    bool     `json:"alias,omitempty"` // use the deprecated alias of the entry point
+	Leaks    bool     `json:"leaks,omitempty"` // after the call, wait for gtree goroutines to settle and report those left
+}
+
+// Item is one line of a well-formed document: depth (roots 1) and name.
+type Item struct {
+	D int    `json:"d"`
+	N string `json:"n"`
 }
 
 type Rep struct {
